@@ -304,6 +304,14 @@ def build_universe(fa, extra_targets=()):
                 out.append(dict(target=t, func=func, sig=sig, sigidx=0, params={"__rename__": True}))
                 if t == "numpy":
                     out.append(dict(target=t, func=func, sig=sig, sigidx=0, params={"__force_cast__": False}))
+        if t in ("numpy", "cpp", "python"):
+            for func in ("asinh", "acosh", "asin", "hypot", "square", "log1p", "stress_folded_constants", "stress_constant_names"):
+                if func in STRESS:
+                    sigs = [[ty] * STRESS[func][1] for ty in STRESS_SIGS[t][STRESS[func][2]]]
+                else:
+                    sigs = [[x if isinstance(x, str) else x.__name__ for x in sg] for sg in (ta.get(func) or [])]
+                for i, sig in enumerate(sigs[:2]):
+                    out.append(dict(target=t, func=func, sig=sig, sigidx=i, params={"__alt__": "float" if t == "python" else "float64"}))
         for func in PATHS_FUNCS:
             sigs = ta.get(func) or ([[ty] * STRESS[func][1] for ty in STRESS_SIGS[t][STRESS[func][2]]] if func in STRESS else [])
             for i, sig in enumerate(sigs[:2]):
@@ -343,9 +351,16 @@ def make_context(fa, target, params=None, how="ctor"):
     paths = [fa.algorithms]
     if params.pop("__paths__", None) == "overrides":
         paths = [make_overrides(), fa.algorithms]
-    for k in [k for k in params if k.startswith("__")]:
+    for k in [k for k in params if k.startswith("__") and k != "__alt__"]:
         params.pop(k)  # print-time options (see print_options), not context parameters
     kw = context_params(target)
+    alt = None
+    for k in list(params):
+        if k == "__alt__":
+            alt = params.pop(k)
+    if alt:
+        # the alternative constant context with a target whose printer is its own constant printer
+        kw = dict(enable_alt=True, default_constant_type=alt)
     if params and how == "ctor":
         return fa.Context(paths=paths, parameters=dict(params), **kw), False
     ctx = fa.Context(paths=paths, **kw)
